@@ -15,8 +15,8 @@ inputs:           (a) typed CoreErg programs (pylib/coreerg_gen.py), (b) the sam
                   all printed by the EXTRACTED Gallina printer NoCrash.Gen.print_erg (compared with its Python twin) and
                   satisfying the extracted grammar predicate wf_progb; (c) text mutations of corpus programs kept when
                   `erg --mode parse` accepts them.
-ties:             printer twin equality; every tree program must pass the real parser; the stack model's co_stacksize is
-                  compared with the .pyc's on the expression-fragment programs erg compiles; gen/BugSites.v (every
+ties:             printer twin equality; every tree program must pass the real parser; the stack model's maximal depth is
+                  compared with the depth of the emitted bytecode on expression-fragment programs; gen/BugSites.v (every
                   panic!/unwrap/compiler_bug... site of the compiler crate) is regenerated and crash observations are
                   resolved against it.
 """
@@ -45,7 +45,9 @@ REGISTRY = dict(
     note="Trusted: Coq kernel, extraction (ExtrOcamlBasic) + generic OCaml driver, pylib/c07_run.py (process exit status / "
          "output classification), `erg --mode parse` as the arbiter of syntactic validity outside the operator "
          "sub-fragment, the C11 models (ExprParse) for the round-trip theorem. The stack model is tied to erg only by "
-         "comparing co_stacksize on expression-fragment programs. Hang limit 30 s scaled by the machine load.",
+         "comparing its maximal stack depth with the depth of the emitted bytecode (CPython's dis.stack_effect) on "
+         "expression-fragment programs. Hang = 90 s of CPU time (RLIMIT_CPU, 3 x the property's 30 s), re-established alone, or no exit within 90 s x load. A stack "
+         "overflow has no location: the check re-runs it under gdb and names the recursion cycle.",
     technique="Coq-proved input validity + reference checker; crash detection by differential execution",
     design="DESIGN.md §4 C07")
 
@@ -101,7 +103,7 @@ class Case:
 def gen_tree_cases(ctx):
     rng = ctx.rng
     k = float(os.environ.get("C07_SCALE", "1"))
-    na, nb = int(k * ctx.scale(40, 800)), int(k * ctx.scale(130, 2600))
+    na, nb = int(k * ctx.scale(35, 300)), int(k * ctx.scale(120, 1000))
     out = []
     for name, prog, U in M.seed_programs():
         out.append(Case("seed", name, None, prog, U))
@@ -109,6 +111,9 @@ def gen_tree_cases(ctx):
         level = rng.choice([1, 2, 3, 3, 4, 4])
         p = M.normalise(G.Gen(rng, level=level, max_stmts=rng.choice([6, 10, 14])).program())
         out.append(Case("a", "typed level %d" % level, None, p, []))
+    for _ in range(int(k * ctx.scale(12, 120))):
+        p = M.normalise(G.Gen(rng, expr_only=True, max_stmts=rng.choice([4, 8])).program())
+        out.append(Case("a-expr", "typed expression fragment", None, p, []))
     for _ in range(nb):
         p = M.normalise(G.Gen(rng, level=rng.choice([3, 3, 4, 4]), max_stmts=rng.choice([6, 10, 14])).program())
         U = M.untype(rng, p) if rng.random() < 0.7 else []
@@ -123,7 +128,7 @@ def gen_tree_cases(ctx):
 def gen_corpus_cases(ctx):
     rng = ctx.rng
     k = float(os.environ.get("C07_SCALE", "1"))
-    nc = int(k * ctx.scale(130, 2600))
+    nc = int(k * ctx.scale(120, 1000))
     files = M.corpus_files(REPO)
     out = []
     if not files:
@@ -195,9 +200,10 @@ def run(ctx):
                                "`erg --mode parse` as arbiter of syntactic validity outside the proved sub-fragment",
                                "coq/ExprParse (C11 models) for print_expr_roundtrip"]
     ctx.assumptions = ["the theorems emit_total / compile_total are about the hand model NoCrash/Check.v of codegen.rs' stack "
-                       "accounting, tied to erg only through co_stacksize on expression-fragment programs",
+                       "accounting, tied to erg only through the maximal stack depth of expression-fragment programs",
                        "no theorem covers erg's type checker: absence of crashes there is observed, not proved",
-                       "a hang is 'no exit within 30 s', scaled by the 1-minute load per core of the machine"]
+                       "a hang is 90 s of CPU time (RLIMIT_CPU; three times the 30 s of the property text, to be robust on a loaded machine), "
+                       "re-established by running the command alone, or no exit within 90 s scaled by the 1-minute load per core"]
     # ---- translators
     try:
         sites = S.scan(REPO)
@@ -353,7 +359,7 @@ def run_with(ctx, proof, model, runner, sites, entries):
                            and (sig.split(":")[1].replace("crates/erg_compiler/", ""), sig.split(":")[2]) in table_fns))
     ctx.cov["table_sites_reached"] = hit_table
     # ---- stack model tie: co_stacksize of the module on expression-fragment programs erg compiled
-    tie_stack(ctx, runner, [c for c in kept if c.kind == "a" and c.res.verdict == "ok"])
+    tie_stack(ctx, runner, [c for c in kept if c.kind == "a-expr" and c.res.verdict == "ok"])
     # ---- known findings
     id_of = {e["class"]["class_id"]: e for e in entries if e.get("status") == "finding"}
     for cid, e in sorted(id_of.items()):
@@ -363,6 +369,17 @@ def run_with(ctx, proof, model, runner, sites, entries):
         else:
             ctx.notes.append("NOTE stale-known-finding %s: neither the witness nor any generated program reproduces it" % e["id"])
             print("NOTE stale-known-finding property=C07 %s" % e["id"])
+    # ---- development aid: C07_LEARN=<file> dumps every unlisted class with a shrunk witness (drafts for known/C07.json)
+    learn = os.environ.get("C07_LEARN")
+    if learn:
+        drafts = []
+        for sig, cs in sorted(unknown.items()):
+            cs.sort(key=lambda c: len(c.src))
+            small = shrink_case(ctx, runner, cs[0], sig)
+            o = [x for x in cs[0].res.crashes if x.sig == sig][0]
+            drafts.append({"sig": sig, "kind": o.kind, "site": o.site, "msg": o.msg, "cmd": o.cmd, "count": len(cs),
+                           "label": cs[0].label, "witness": small.src, "original": cs[0].src})
+        json.dump(drafts, open(learn, "w"), indent=1, ensure_ascii=False)
     # ---- violations: crashes outside the listed classes
     for sig, cs in sorted(unknown.items(), key=lambda kv: -len(kv[1]))[:4]:
         cs.sort(key=lambda c: len(c.src))
@@ -381,17 +398,60 @@ def run_with(ctx, proof, model, runner, sites, entries):
         ctx.violation("broken-theorem", "theorem(s) no longer check: " + proof.summary(), theorem=proof.summary(), no_input=True)
 
 
+STACK_SCRIPT = r"""
+import dis, json, marshal, sys
+out = []
+for p in sys.argv[1:]:
+    try:
+        co = marshal.loads(open(p, 'rb').read()[16:])
+        code = co.co_code
+        # after the prelude (first IMPORT_STAR): linear simulation of the value stack with CPython's own stack effects
+        start = None
+        for i in range(0, len(code), 2):
+            if dis.opname[code[i]] == 'IMPORT_STAR':
+                start = i + 2
+                break
+        depth = mx = 0
+        ext = 0
+        pending = {}
+        ok = start is not None
+        i = start or 0
+        while ok and i < len(code):
+            op, arg = code[i], code[i + 1]
+            i += 2
+            if dis.opname[op] == 'EXTENDED_ARG':
+                ext = (ext << 8) | arg
+                continue
+            arg, ext = (ext << 8) | arg, 0
+            if (i - 2) in pending:
+                depth -= pending.pop(i - 2)
+            if dis.opname[op] in ('JUMP_IF_TRUE_OR_POP', 'JUMP_IF_FALSE_OR_POP'):
+                # codegen.rs (emit_binop, and/or) keeps counting the left operand while the right one is evaluated and
+                # decrements after it: the simulation follows that accounting (an over-approximation by one, harmless)
+                pending[i + 2 * arg] = pending.get(i + 2 * arg, 0) + 1
+                eff = 0
+            else:
+                eff = dis.stack_effect(op, arg if op >= dis.HAVE_ARGUMENT else None, jump=False)
+            depth += eff
+            mx = max(mx, depth)
+        out.append(mx if ok else -1)
+    except Exception as e:
+        out.append(-2)
+print(json.dumps(out))
+"""
+
+
 def tie_stack(ctx, runner, cases):
-    """the model's stacksize of the module code object vs co_stacksize of the .pyc (typed programs erg compiled)"""
-    cases = cases[:ctx.scale(30, 300)]
+    """tie of the stack-accounting model: on expression-fragment programs (straight-line module code; the wrap codes
+    of the generator are exact there, C01 compares the bytecode) the model's maximal stack_len must equal the maximal
+    depth of the value stack of the emitted code, computed with CPython 3.11's own dis.stack_effect after the prelude"""
+    cases = cases[:ctx.scale(12, 120)]
     if not cases:
         return
     d = os.path.join(runner.work, "stack")
     os.makedirs(d, exist_ok=True)
     script = os.path.join(d, "ss.py")
-    open(script, "w").write(
-        "import marshal, sys, json\nout = []\nfor p in sys.argv[1:]:\n    try:\n        co = marshal.loads(open(p, 'rb').read()[16:])\n"
-        "        out.append(co.co_stacksize)\n    except Exception as e:\n        out.append(-1)\nprint(json.dumps(out))\n")
+    open(script, "w").write(STACK_SCRIPT)
     pycs = []
     for k, c in enumerate(cases):
         p = os.path.join(d, "s%d.er" % k)
@@ -401,19 +461,23 @@ def tie_stack(ctx, runner, cases):
     env = runner.env
 
     def comp(p):
-        subprocess.run([runner.erg, "compile", "--py-magic-num", R.MAGIC_311, p], env=env, capture_output=True, timeout=runner.timeout * 2)
+        subprocess.run([runner.erg, "compile", "--py-magic-num", R.MAGIC_311, p], env=env, capture_output=True, timeout=runner.timeout * 3)
     with ThreadPoolExecutor(16) as ex:
         list(ex.map(comp, [p[:-4] + ".er" for p in pycs]))
     q = sh(["/root/.pyenv/versions/3.11.7/bin/python3.11", script] + pycs, timeout=600)
     if q.returncode != 0:
-        raise FrameworkError("co_stacksize reader failed: " + q.stderr[-1000:])
+        raise FrameworkError("stack depth reader failed: " + q.stderr[-1000:])
     sizes = json.loads(q.stdout)
-    agree = sum(1 for c, s in zip(cases, sizes) if s == c.model["stack"])
-    within = sum(1 for c, s in zip(cases, sizes) if s >= 0 and abs(s - c.model["stack"]) <= 1)
-    ctx.cov["stack_model_tie"] = {"programs": len(cases), "co_stacksize equal to the model's": agree,
-                                  "within 1": within,
-                                  "examples_of_difference": [{"erg": c.src[:300], "model": c.model["stack"], "erg_stacksize": s}
-                                                             for c, s in zip(cases, sizes) if s != c.model["stack"]][:3]}
+    pairs = [(c, s) for c, s in zip(cases, sizes) if s >= 0]
+    bad = [(c, s) for c, s in pairs if s != c.model["stack"]]
+    ctx.cov["stack_model_tie"] = {"expression-fragment programs compiled": len(pairs),
+                                  "maximal stack depth of the emitted code (dis.stack_effect) equal to the model's": len(pairs) - len(bad)}
+    if bad:
+        c, s = bad[0]
+        ctx.violation("broken-correspondence", "the stack-accounting model NoCrash/Check.v and the emitted bytecode disagree on the "
+                      "maximal stack depth of %d of %d expression-fragment programs (model %d, bytecode %d): codegen.rs' stack "
+                      "accounting or its instruction selection changed" % (len(bad), len(pairs), c.model["stack"], s),
+                      case=c.as_json(), impl={"max_depth": s}, model={"max_depth": c.model["stack"]}, no_input=True)
 
 
 def replay(ctx, path):
